@@ -705,6 +705,12 @@ class Interp(Ops):
             return None
         anns = {a.arg: a.annotation for a in (init.node.args.posonlyargs + init.node.args.args + init.node.args.kwonlyargs)}
         for st_ in ast.walk(init.node):
+            if isinstance(st_, ast.AnnAssign) and isinstance(st_.target, ast.Attribute) and isinstance(st_.target.value, ast.Name) \
+                    and st_.target.value.id == "self" and st_.target.attr == attr:
+                try:
+                    return self.tenv.parse(st_.annotation)      # `self.x: T = ...` in __init__: the declared type
+                except Unsupported:
+                    return None
             if isinstance(st_, ast.Assign) and len(st_.targets) == 1 and isinstance(st_.targets[0], ast.Attribute) \
                     and isinstance(st_.targets[0].value, ast.Name) and st_.targets[0].value.id == "self" \
                     and st_.targets[0].attr == attr:
@@ -883,7 +889,27 @@ class Interp(Ops):
         self.symbolic_loop(loop, fr, it)
         return fr.vars["__comp"]
 
+    def keys_where(self, e, fr):
+        """(k for k, v in m.items() if cond(k, v)) over a symbolic map with elt == k: the set {k in m | cond}"""
+        g = e.generators[0]
+        if not (isinstance(g.target, ast.Tuple) and len(g.target.elts) == 2 and all(isinstance(x, ast.Name) for x in g.target.elts)):
+            return None
+        kn, vn = (x.id for x in g.target.elts)
+        if not (isinstance(e.elt, ast.Name) and e.elt.id == kn):
+            return None
+        it = self.eval(g.iter, fr)
+        if not (getattr(it, "kind", "") == "iter" and it.what == "items" and isinstance(it.base, VMap)):
+            return None
+        m = self.filter_map(it.base, kn, vn, g.ifs, fr)
+        ref = self.st.new_ref()
+        self.st.heap[(ref, "set")] = self.st.heap[(m.ref, "dom")]
+        return VSet(ref, m.key)
+
     def e_GeneratorExp(self, e, fr):
+        if len(e.generators) == 1 and not e.generators[0].is_async:
+            ks = self.keys_where(e, fr)
+            if ks is not None:
+                return ks
         if len(e.generators) == 1 and isinstance(e.generators[0].target, ast.Name):
             it = self.eval(e.generators[0].iter, fr)
             if isinstance(it, VSet):
